@@ -35,34 +35,43 @@ Proof.
   destruct (dmk c) eqn:E; [discriminate|]. constructor; [exact E | apply IH; exact H].
 Qed.
 
-(* no keyword of a keyword handler contains one of the six characters *)
-Lemma kw_handlers_keywords_clean :
-  forallb (fun h => forallb (fun k => forallb (fun c => negb (dmk c)) k) (snd (snd h))) css_kw_handlers = true.
+Lemma dmk_blank : dmk 32 = false. Proof. reflexivity. Qed.
+
+(* no keyword of a recognised handler contains one of the six characters *)
+Definition cond_keywords (c : hcond) : list bytes := match c with CIn kw | CInSpace kw => kw | _ => [] end.
+Definition clean_word (k : bytes) : bool := forallb (fun c => negb (dmk c)) k.
+Lemma handler_keywords_clean :
+  forallb (fun h => forallb (fun c => forallb clean_word (cond_keywords c)) (snd h)) css_handler_defs = true.
 Proof. vm_compute. reflexivity. Qed.
-Lemma forallb_D_nil k : forallb (fun c => negb (dmk c)) k = true -> D dmk k = [].
+Lemma forallb_D_nil k : clean_word k = true -> D dmk k = [].
 Proof.
-  induction k as [|c k IH]; [reflexivity|]. cbn [forallb]. intros H. apply andb_true_iff in H as [Hc Hk].
+  unfold clean_word. induction k as [|c k IH]; [reflexivity|]. cbn [forallb]. intros H. apply andb_true_iff in H as [Hc Hk].
   unfold D. cbn [filter]. apply negb_true_iff in Hc. rewrite Hc. apply IH. exact Hk.
 Qed.
 
-(* every acceptor a keyword handler names is one of the file's acceptor regexps *)
-Lemma kw_handlers_acceptors_known :
-  forallb (fun h => forallb (fun nm => existsb (fun a => String.eqb (fst a) nm) css_acceptors) (fst (snd h))) css_kw_handlers = true.
+(* every acceptor a recognised handler names is one of the file's acceptor regexps, and every call goes to an earlier entry *)
+Lemma handler_acceptors_known :
+  forallb (fun h => forallb (fun c => match c with CRx nm => existsb (fun a => String.eqb (fst a) nm) css_acceptors | _ => true end) (snd h)) css_handler_defs = true.
+Proof. vm_compute. reflexivity. Qed.
+Lemma handler_calls_resolved : calls_resolved css_handler_defs [] = true.
 Proof. vm_compute. reflexivity. Qed.
 
-(* how much of the default handler table these handlers serve *)
-Definition kw_handler_entries : nat :=
-  List.length (filter (fun e => existsb (fun h => String.eqb (fst h) (snd e)) css_kw_handlers) default_style_handlers).
-(* 99 of the 213 entries on the pinned tree; stated as a lower bound so that adding handlers does not break it *)
-Lemma kw_handler_coverage : Nat.leb 90 kw_handler_entries = true.
+(* how much of the default handler table the recognised handlers serve *)
+Definition handler_entries : nat :=
+  List.length (filter (fun e => existsb (fun h => String.eqb (fst h) (snd e)) css_handler_defs) default_style_handlers).
+(* 157 of the 213 entries, 122 functions on the pinned tree; stated as a lower bound so that adding handlers does not break it *)
+Lemma handler_coverage : Nat.leb 150 handler_entries = true.
 Proof. vm_compute. reflexivity. Qed.
 
-Theorem kw_handler_clean fn h v : In (fn, h) css_kw_handlers -> kw_handler (snd h) v = true ->
-  Forall (fun c => cs_mem c danger_cset = false) v.
+Theorem cin_clean kw v : forallb clean_word kw = true -> kw_handler kw v = true -> Forall (fun c => cs_mem c danger_cset = false) v.
 Proof.
-  intros Hin H. apply D_nil_clean.
-  apply (kw_handler_marked dmk dmk_ascii dmk_not_upper dmk_not_lower dmk_table dmk_space dmk_comma (snd h) v); [|exact H].
-  intros k Hk. apply forallb_D_nil.
-  pose proof kw_handlers_keywords_clean as T. rewrite forallb_forall in T. specialize (T _ Hin). cbn [snd] in T.
-  rewrite forallb_forall in T. exact (T k Hk).
+  intros Hk H. apply D_nil_clean.
+  apply (kw_handler_marked dmk dmk_ascii dmk_not_upper dmk_not_lower dmk_table dmk_space dmk_comma kw v); [|exact H].
+  intros k Hin. apply forallb_D_nil. rewrite forallb_forall in Hk. exact (Hk k Hin).
+Qed.
+Theorem cinspace_clean kw v : forallb clean_word kw = true -> in_list (split v [32]) kw = true -> Forall (fun c => cs_mem c danger_cset = false) v.
+Proof.
+  intros Hk H. apply D_nil_clean.
+  apply (in_space_marked dmk) with (kw := kw); auto using dmk_ascii, dmk_not_upper, dmk_not_lower, dmk_table, dmk_space, dmk_comma, dmk_blank.
+  intros k Hin. apply forallb_D_nil. rewrite forallb_forall in Hk. exact (Hk k Hin).
 Qed.
